@@ -79,8 +79,8 @@ def make_ops(rng, cfg, profile, tier):
             ops.append({'op': 'CATALOG_BETA', 'a': [rng.randrange(4)]})
         elif r < 0.869:
             ops.append({'op': 'SINGULAR_REPORT', 'a': [rng.randrange(3)]})
-        elif r < 0.87:
-            ops.append({'op': 'RENAME_SHARED', 'a': [rng.randrange(8)]})
+        elif r < 0.876:
+            ops.append({'op': rng.choice(['RENAME_SHARED', 'RENAME_SHARED', 'BLANK_NAMES']), 'a': [rng.randrange(8)]})
         elif r < 0.93:
             ops.append({'op': 'FIX', 'a': [rng.randrange(64), round(rng.uniform(-1, 1), 2),
                                            rng.choice([None, None, 'prefix', 'suffix'])]})
@@ -646,6 +646,52 @@ class Session:
                     ctx.fail('I03.rename', f'after the one-to-one renaming row {i_} evaluates to {g_!r}, before to {w_!r}')
             ctx.probe('library renaming on a formula with ' + ('names carried by several objects' if distinct else 'a shared sub-formula'))
             ctx.log(kind, mode)
+        elif kind == 'BLANK_NAMES':
+            # names are free strings: three parameters whose names differ only by a blank at one end are three parameters,
+            # each known under exactly the name it was given (no file is involved here)
+            import biogeme.biogeme as bio
+            import biogeme.database as db
+            import biogeme.expressions as ex
+            from biogeme.expressions import TypeOfElementaryExpression as _T
+            from biogeme.parameters import Parameters
+            given = [['bn', 'bn ', ' bn'], ['bn ', 'bn'], [' k', 'k', 'k  ']][a[0] % 3]
+            vals = {n_: round(0.3 + 0.25 * i_, 2) for i_, n_ in enumerate(given)}
+            bs = [ex.Beta(n_, 0.0, None, None, 0) for n_ in given]
+            x0 = ex.Variable('x0')
+            f = bs[0] * x0
+            for i_, b_ in enumerate(bs[1:], start=2):
+                f = f + b_ * float(i_)
+            ll = -(f - 1.0) * (f - 1.0)
+            seen = sorted(ll.set_of_elementary_expression(_T.FREE_BETA))
+            if seen != sorted(given):
+                ctx.fail('I03.names', f'parameters declared as {sorted(given)!r} are known as {seen!r}')
+            d_ = db.Database('bl', self.table.copy())
+            want = []
+            for x_ in self.table['x0']:
+                u_ = vals[given[0]] * float(x_) + sum(vals[n_] * float(i_) for i_, n_ in enumerate(given[1:], start=2))
+                want.append(-(u_ - 1.0) ** 2)
+            got = [float(v) for v in ll.get_value_c(database=d_, betas=dict(vals), prepare_ids=True)]
+            for i_, (g_, w_) in enumerate(zip(got, want)):
+                if abs(g_ - w_) > 1e-10 * max(1.0, abs(w_)):
+                    ctx.fail('I03.names', f'values given by name to parameters {given!r}: row {i_} evaluates to {g_!r}, the formula '
+                                          f'gives {w_!r}')
+            p = Parameters()
+            p.set_value('save_iterations', False)
+            p.set_value('generate_html', False)
+            p.set_value('generate_pickle', False)
+            p.set_value('number_of_threads', 1)
+            b = bio.BIOGEME(d_, {'log_like': ll}, parameters=p)
+            if list(b.free_beta_names) != sorted(given):
+                ctx.fail('I03.names', f'the object lists the parameters {list(b.free_beta_names)!r}, declared: {sorted(given)!r}')
+            v = float(b.calculate_likelihood([vals[n_] for n_ in b.free_beta_names], scaled=False))
+            if abs(v - sum(want)) > 1e-9 * max(1.0, abs(sum(want))):
+                ctx.fail('I03.names', f'log likelihood with values listed in the order of free_beta_names: {v!r}, expected {sum(want)!r}')
+            sim = b.simulate(dict(vals))
+            for i_, (g_, w_) in enumerate(zip([float(z_) for z_ in sim['log_like']], want)):
+                if abs(g_ - w_) > 1e-10 * max(1.0, abs(w_)):
+                    ctx.fail('I03.names', f'simulate with values by name for {given!r}: row {i_} gives {g_!r}, expected {w_!r}')
+            ctx.probe('parameter names that differ by a blank at one end')
+            ctx.log(kind, a[0] % 3)
         elif kind == 'SINGULAR_REPORT':
             # a model that is almost not identified along one direction: the report names the parameters involved in
             # that direction - those whose component of the eigenvector exceeds the threshold, by name
